@@ -317,10 +317,11 @@ def run_case(ctx, rng, n_case):
             accepted = True
         except xtuml.MetaException:
             accepted = False
-        # giving the odd attribute a value explicitly needs no default: only defaulting must be rejected
-        if accepted and 'y' not in kw:
-            raise Mismatch('unknown-type/accepted', 'attempt number %d to create an instance whose attribute of '
-                           'unknown type needs a default succeeded (arguments %r)' % (attempt + 1, kw))
+        # every non-referential attribute is given the default of its type before the arguments are applied, so
+        # the unknown type is met whatever the arguments are
+        if accepted:
+            raise Mismatch('unknown-type/accepted', 'attempt number %d to create an instance of a class with an '
+                           'attribute of unknown type succeeded (arguments %r)' % (attempt + 1, kw))
 
 
 def value(rng, ty):
